@@ -4,6 +4,7 @@ par=$1; shift
 for item in "$@"; do
   while [ "$(vp runs 2>/dev/null | grep -c ' running ')" -ge "$par" ]; do sleep 20; done
   sd=${item%%:*}; props=$(echo ${item##*:} | tr ',' ' ')
-  vp run --timeout 90m -- tools/seed_eval.sh /tmp/seeds/$sd $props | head -1
+  case $sd in /*) dir=$sd;; *) dir=/tmp/seeds/$sd;; esac
+  vp run --timeout 90m -- tools/seed_eval.sh $dir $props | head -1
   sleep 5
 done
